@@ -375,6 +375,9 @@ partial def loop (h : IO.FS.Stream) (s : St) : IO Unit := do
     | ["oWalUnfaithful", b, e, why] =>
       printVios (if s.diverged then s.sc ++ "~" else s.sc) s.line [⟨"C17", "unfaithfulLine", [], s!"bus {b} event {e}: WAL line does not validate back to the event ({why})"⟩]
       loop h s
+    | ["oWalLineMissing", b, e] =>
+      printVios (if s.diverged then s.sc ++ "~" else s.sc) s.line [⟨"C17", "lineMissing", [], s!"bus {b} event {e}: no WAL line was written for the processed event although its payload is serialisable and no I/O fault was injected"⟩]
+      loop h s
     | "oIdentity" :: what =>
       printVios (if s.diverged then s.sc ++ "~" else s.sc) s.line [⟨"C03", "identity", [], " ".intercalate what⟩]
       loop h s
